@@ -14,6 +14,7 @@
 /* suites, one file each */
 #include "drv_list.h"
 #include "drv_bstr.h"
+#include "drv_table.h"
 
 int main(int argc, char **argv) {
     FILE *in = stdin;
@@ -25,6 +26,7 @@ int main(int argc, char **argv) {
         if (n == 0) continue;
         int nf = split_tabs(line, f, 64);
         if (strcmp(f[0], "list") == 0) do_list(f, nf);
+        else if (strcmp(f[0], "table") == 0) do_table(f, nf);
         else if (drv_bstr(f, nf)) {}
         else printf("?unknown-suite %s", f[0]);
         printf("\n");
